@@ -33,6 +33,7 @@ def child_makers():
 
     makers = {
         "LiteralFloat+": lambda: L.LiteralFloat(2.5),
+        "LiteralFloatWhole": lambda: L.LiteralFloat(3.0),
         "LiteralFloat-": lambda: L.LiteralFloat(-2.5),
         "LiteralComplex": lambda: L.LiteralFloat(1.5 - 2.25j),
         "LiteralComplexIm": lambda: L.LiteralFloat(2.5j),
@@ -110,7 +111,7 @@ def triples():
 def lit(v):
     if isinstance(v, complex):
         return ("clit", float(v.real) + 0.0, float(v.imag) + 0.0)
-    return ("lit", float(v))
+    return ("lit", float(v), "float")
 
 
 def canon_l(e):
@@ -118,7 +119,7 @@ def canon_l(e):
     if isinstance(e, L.LiteralFloat):
         return lit(e.value)
     if isinstance(e, L.LiteralInt):
-        return ("lit", float(int(e.value)))
+        return ("lit", float(int(e.value)), "int")
     if isinstance(e, L.Symbol):
         return ("name", e.name)
     if isinstance(e, L.MultiIndex):
@@ -126,7 +127,7 @@ def canon_l(e):
     if isinstance(e, L.Neg):
         c = canon_l(e.arg)
         if c[0] == "lit":
-            return ("lit", -c[1])
+            return ("lit", -c[1], c[2])
         if c[0] == "clit":
             return ("clit", -c[1], -c[2])
         return ("neg", c)
@@ -175,7 +176,9 @@ def canon_c(n):
 
     if isinstance(n, c_ast.Constant):
         v = n.value.rstrip("fFlLuU")
-        return ("lit", float(int(v, 0)) if n.type == "int" else float(v))
+        if n.type == "int":
+            return ("lit", float(int(v, 0)), "int")
+        return ("lit", float(v), "float")
     if isinstance(n, c_ast.ID):
         return ("name", n.name)
     if isinstance(n, c_ast.UnaryOp):
@@ -183,7 +186,7 @@ def canon_c(n):
         if n.op == "-":
             if c[0] == "clit":
                 return ("clit", -c[1], -c[2])
-            return ("lit", -c[1]) if c[0] == "lit" else ("neg", c)
+            return ("lit", -c[1], c[2]) if c[0] == "lit" else ("neg", c)
         if n.op == "!":
             return ("not", c)
         if n.op == "+":
@@ -228,7 +231,7 @@ def canon_py(n):
     if isinstance(n, pyast.Constant):
         if isinstance(n.value, complex):
             return ("clit", n.value.real, n.value.imag)
-        return ("lit", float(n.value))
+        return ("lit", float(n.value), "int" if isinstance(n.value, int) and not isinstance(n.value, bool) else "float")
     if isinstance(n, pyast.Name):
         return ("name", n.id)
     if isinstance(n, pyast.UnaryOp):
@@ -236,7 +239,7 @@ def canon_py(n):
         if isinstance(n.op, pyast.USub):
             if c[0] == "clit":
                 return ("clit", -c[1], -c[2])
-            return ("lit", -c[1]) if c[0] == "lit" else ("neg", c)
+            return ("lit", -c[1], c[2]) if c[0] == "lit" else ("neg", c)
         if isinstance(n.op, pyast.Not):
             return ("not", c)
         return ("unary", c)
